@@ -88,6 +88,12 @@ Families ==
          \* pending-wrap column, in insert mode, with autowrap off (widths are facts logged by the harness at replay)
          UNION { { [c |-> g[1], l |-> g[2], h |-> Fill(g[1], g[2]) \o mm \o PlaceWrap(g[1], <<>>, FALSE, 0, x, 122)] :
                    mm \in { <<>>, <<EvM("sm", <<4>>, FALSE)>>, <<EvM("rm", <<7>>, TRUE)>> }, x \in {1, g[1]} } : g \in Geoms }
+    [] Model = "Phuge" ->
+         \* a screen with more columns (lines) than 16 bits can count, parameters around 2^16: a count, a column or a row
+         \* narrowed to 16 bits shows here and nowhere else inside the documented parameter range (API port only - the
+         \* parser caps parameters at 9999)
+         UNION { { [c |-> g[1], l |-> g[2], h |-> << EvS("draw", <<97, 98, 99>>), Ev("cup", <<y + 1, x + 1>>), Ev("sgr", <<44>>) >>] :
+                   x \in IF g[1] = 1 THEN {0} ELSE {1, g[1] - 3}, y \in IF g[2] = 1 THEN {0} ELSE {1, g[2] - 3} } : g \in Geoms }
     [] Model = "Psweep" ->
          \* parameter sweep on a 300-column and a 300-line screen: values around every power of two up to 4096 and the
          \* extremes, from both ends - a truncated or mis-clamped parameter shows where small screens clamp it away
@@ -165,7 +171,13 @@ Families ==
                             <<EvS("title", <<116>>), EvS("icon", <<105>>), Ev("so", <<>>), [Ev("charset", <<40>>) EXCEPT !.s = <<85>>]>>,
                             <<Ev("hts", <<>>), Ev("tbc", <<3>>), Ev("decsc", <<>>), EvM("rm", <<25, 7>>, TRUE)>>,
                             <<Ev("cup", <<1, g[1]>>), Ev("ich", <<1>>), Ev("ri", <<>>), Ev("el", <<1>>)>>,
-                            <<EvM("sm", <<3>>, TRUE)>> } } : g \in Geoms }
+                            <<EvM("sm", <<3>>, TRUE)>>,
+                            \* the remembered DECCOLM width in each of its combinations with the mode flag and the current width
+                            <<EvM("sm", <<3>>, TRUE), Ev("resize", <<-1, 5>>)>>,
+                            <<EvM("sm", <<3>>, TRUE), Ev("resize", <<-1, 5>>), EvM("rm", <<3>>, TRUE)>>,
+                            <<EvM("sm", <<3>>, TRUE), Ev("resize", <<-1, 5>>), EvM("rm", <<3>>, TRUE), Ev("resize", <<-1, 132>>)>>,
+                            <<EvM("sm", <<3>>, TRUE), EvM("rm", <<3>>, TRUE), Ev("decsc", <<>>), Ev("decsc", <<>>)>>,
+                            <<EvM("sm", <<3>>, TRUE), EvM("sm", <<3>>, TRUE)>> } } : g \in Geoms }
 
 \* reachable members only (DECOM with a region confines the cursor to the region)
 MemberOK(f) == WellFormedCore(Run(f.c, f.l, f.h))
@@ -181,6 +193,7 @@ GRows  == { <<3, 1>>, <<3, 2>>, <<3, 3>>, <<3, 4>>, <<2, 5>> }
 GRowsQuick == { <<3, 1>>, <<3, 2>>, <<3, 3>>, <<2, 4>> }
 GWide  == { <<9, 1>>, <<17, 1>>, <<20, 2>>, <<80, 1>>, <<132, 1>>, <<140, 1>> }
 GColm  == { <<132, 1>>, <<133, 1>>, <<200, 2>> }    \* at and beyond the DECCOLM width
+GHuge  == { <<65537, 1>> }    \* (a 65537-LINE screen makes the trace validator's per-row set operations take tens of minutes: not explored)
 GLong  == { <<300, 1>>, <<1, 300>> }
 GAllW  == { <<w, 1>> : w \in (1..140) \cup {255, 256, 257, 264, 265, 300} }
 GAllWQuick == { <<w, 1>> : w \in {1, 2, 7, 8, 9, 10, 15, 16, 17, 24, 25, 33, 40, 64, 65, 80, 81, 100, 132, 133, 139, 140, 256, 257, 265} }
@@ -200,6 +213,9 @@ SweepParams == (0..40) \cup {63, 64, 65, 127, 128, 129, 255, 256, 257, 299, 300,
 SweepChars == (0..900) \cup {1541, 1564, 2307, 2366, 94192, 4352, 8203, 8204, 8205, 8206, 8232, 8288, 8413, 9786, 12288, 12295, 19968, 44032, 65039, 65279, 65281,
                              65533, 127462, 128512, 917505, 1114111}
 
+\* a long parameter list: n alternating bold / normal-intensity codes, then a tail whose effect must still arrive
+LongList(n, tail) == [i \in 1..n |-> IF i % 2 = 1 THEN 1 ELSE 22] \o tail
+
 MoveEvents(s) ==
   { Ev(op, <<n>>) : op \in {"cuu", "cud", "cnl", "cpl", "vpa"}, n \in Params(s.L) }
   \cup { Ev(op, <<n>>) : op \in {"cuf", "cub", "cha"}, n \in Params(s.C) }
@@ -208,6 +224,12 @@ MoveEvents(s) ==
 Events(s) ==
   CASE Model = "C05" -> MoveEvents(s)
     [] Model = "C04sweep" -> { EvS("draw", <<cp>>) : cp \in SweepChars }
+    [] Model = "Phuge" ->
+         \* (horizontal operations on the wide screen, vertical ones on the tall screen)
+         { Ev(op, <<n>>) : op \in (IF s.L = 1 THEN {"cuf", "cub", "cha", "ich", "dch", "ech"} ELSE {"cuu", "cud", "cnl", "cpl", "vpa", "il", "dl"}),
+                           n \in {65535, 65536, 65537, 65538} }
+         \cup { Ev("cup", <<n, n>>) : n \in {65536, 65537, 65538} }
+         \cup (IF s.L = 1 THEN { Ev("ht", <<>>), Ev("el", <<0>>), Ev("el", <<1>>), EvS("draw", <<120>>) } ELSE { Ev("ed", <<0>>), Ev("ed", <<1>>) })
     [] Model = "Psweep" ->
          { Ev(op, <<n>>) : op \in {"cuu", "cud", "cuf", "cub", "cnl", "cpl", "cha", "vpa", "ich", "dch", "ech", "il", "dl"}, n \in SweepParams }
          \cup { Ev("cup", <<n, n>>) : n \in SweepParams } \cup { Ev("decstbm", <<2, n>>) : n \in SweepParams }
@@ -224,7 +246,9 @@ Events(s) ==
     [] Model = "C07" -> { Ev(op, <<n>>) : op \in {"ed", "el"}, n \in {-1, 0, 1, 2, 3, 4, 5, 9999} }
                         \cup { Ev("ech", <<n>>) : n \in Params(s.C) }
     [] Model = "C13" -> { Ev(op, <<n>>) : op \in {"ich", "dch"}, n \in Params(s.C) }
-    [] Model = "C08" -> { Ev("sgr", <<n>>) : n \in 0..SgrMax } \cup { Ev("sgr", <<n>>) : n \in {255, 256, 1000, 9999} }
+    [] Model = "C08" -> { Ev("sgr", LongList(n, tail)) : n \in {13, 14, 15, 16, 17, 29, 30, 31, 32, 33, 61, 62, 63, 64, 65, 125, 126, 127, 128, 129, 253, 254, 255, 256, 257},
+                                                       tail \in { <<31, 4, 9>>, <<38, 5, 200, 3>>, <<48, 2, 10, 20, 30, 7>> } }
+                        \cup { Ev("sgr", <<n>>) : n \in 0..SgrMax } \cup { Ev("sgr", <<n>>) : n \in {255, 256, 1000, 9999} }
                         \cup { Ev("sgr", <<>>) }
                         \cup { Ev("sgr", <<k, 5, n>>) : k \in {38, 48}, n \in {0, 1, 7, 8, 15, 16, 17, 51, 100, 231, 232, 244, 255, 256, 300, 9999} }
                         \cup { Ev("sgr", <<k, 2, a, b, 7>>) : k \in {38, 48}, a \in {0, 18, 255, 256}, b \in {0, 255, 300} }
@@ -235,6 +259,7 @@ Events(s) ==
     [] Model = "C16" -> { Ev("resize", <<a, b>>) : a \in {-1} \cup 1..(s.L + 2), b \in {-1} \cup 1..(s.C + 2) }
     [] Model = "C04" -> { EvS("draw", t) : t \in Texts }
     [] Model = "C12" -> { EvM(op, <<n>>, pr) : op \in {"sm", "rm"}, n \in ModeNumbers, pr \in BOOLEAN }
+                        \cup { EvM(op, [i \in 1..n |-> IF i = n THEN last ELSE 2000 + i], pr) : op \in {"sm", "rm"}, n \in {16, 17, 32, 33, 64, 65, 129}, last \in {4, 7, 25}, pr \in BOOLEAN }
                         \cup { EvM(op, q, TRUE) : op \in {"sm", "rm"}, q \in { <<6, 7>>, <<5, 25>>, <<3, 6>>, <<25, 1049, 5>>, <<7, 7>> } }
     [] Model = "C14" -> { Ev("decsc", <<>>), Ev("decrc", <<>>) }
     [] Model = "C20" -> { EvS("draw", <<cp>>) : cp \in DrawCps }
